@@ -21,6 +21,9 @@ import (
 type c18State struct {
 	Idx  types.Index
 	Tags map[string]string // model: tag -> digest of the last insertion, minus removals
+	// Child: digests handed to AddChildren and neither inserted at top level (AddDesc takes a digest out of the child
+	// list) nor removed by digest since: "recorded as children", so lookup by digest has to find them
+	Child map[string]bool
 }
 
 func c18Digests(n int) []digest.Digest {
@@ -89,6 +92,7 @@ func c18Specs(tier string) []*h.SeqSpec {
 			opts, on := mkOpts(ch)
 			addOp("AddDesc "+dn(d)+on, func(s *c18State) []h.Violation {
 				s.Idx.AddDesc(desc(d), opts...)
+				delete(s.Child, d.String())
 				return nil
 			})
 			for _, t := range tags {
@@ -97,6 +101,7 @@ func c18Specs(tier string) []*h.SeqSpec {
 					dd := desc(d)
 					dd.Annotations = map[string]string{types.AnnotRefName: t}
 					s.Idx.AddDesc(dd, opts...)
+					delete(s.Child, d.String())
 					s.Tags[t] = d.String()
 					return nil
 				})
@@ -108,6 +113,7 @@ func c18Specs(tier string) []*h.SeqSpec {
 					dd.MediaType = types.MediaTypeOCI1ManifestList
 					dd.Annotations = map[string]string{types.AnnotReferrerSubject: sj}
 					s.Idx.AddDesc(dd, opts...)
+					delete(s.Child, d.String())
 					return nil
 				})
 			}
@@ -117,6 +123,7 @@ func c18Specs(tier string) []*h.SeqSpec {
 		d := d
 		addOp("RmDesc "+dn(d), func(s *c18State) []h.Violation {
 			s.Idx.RmDesc(types.Descriptor{Digest: d})
+			delete(s.Child, d.String())
 			for t, x := range s.Tags {
 				if x == d.String() {
 					delete(s.Tags, t)
@@ -175,31 +182,29 @@ func c18Specs(tier string) []*h.SeqSpec {
 	for _, d := range ds {
 		d := d
 		addOp("AddChildren "+dn(d), func(s *c18State) []h.Violation {
-			// callers only record children they have not seen (store.indexIngest): keep that precondition
-			for _, m := range s.Idx.Manifests {
-				if m.Digest == d {
-					return nil
-				}
-			}
+			// a digest is recorded as a child at most once (the stores keep that precondition; a second record of the same
+			// digest is outside the statement); a digest that also has a top-level entry may be recorded
 			for _, m := range c18Children(&s.Idx) {
 				if m.Digest == d {
 					return nil
 				}
 			}
 			s.Idx.AddChildren([]types.Descriptor{desc(d)})
+			s.Child[d.String()] = true
 			return nil
 		})
 	}
 	sp := &h.SeqSpec{
 		Name: fmt.Sprintf("c18-%ddigests", nd),
 		Init: func(w *h.World) {
-			w.M = &c18State{Idx: types.Index{SchemaVersion: 2, MediaType: types.MediaTypeOCI1ManifestList, Manifests: []types.Descriptor{}}, Tags: map[string]string{}}
+			w.M = &c18State{Idx: types.Index{SchemaVersion: 2, MediaType: types.MediaTypeOCI1ManifestList, Manifests: []types.Descriptor{}}, Tags: map[string]string{}, Child: map[string]bool{}}
 		},
 		Ops: ops,
 		Model: func(w *h.World) string {
 			s := st(w)
 			b, _ := json.Marshal(s.Tags)
-			return h.Dump(&s.Idx) + string(b)
+			c, _ := json.Marshal(s.Child)
+			return h.Dump(&s.Idx) + string(b) + string(c)
 		},
 		Probe: func(w *h.World) []h.Violation {
 			vs := c18Probe(st(w), ds, tags, subjs, dn)
@@ -260,6 +265,14 @@ func c18Probe(s *c18State, ds []digest.Digest, tags, subjs []string, dn func(dig
 		}
 		if !ok && err == nil {
 			add("tag-lookup-last-insertion", "removed-tag-found", "GetDesc(%s) finds %s but the tag was removed; index %s", t, dn(d.Digest), c18Show(idx, dn))
+		}
+	}
+	// recorded as a child: lookup by digest succeeds
+	for _, d := range ds {
+		if s.Child[d.String()] {
+			if _, err := idx.GetDesc(d.String()); err != nil {
+				add("lookup-by-digest", "recorded-child-not-found", "%s was handed to AddChildren and neither inserted at top level nor removed by digest since, but GetDesc fails: %s", dn(d), c18Show(idx, dn))
+			}
 		}
 	}
 	// a subject has at most one response
